@@ -459,11 +459,14 @@ def run(ck, w):
         po = flow.origins_x(lib, sd, cr[0].args[1])
         co = flow.origins_x(lib, sd, cont[0].args[1])
         o2 = ck.ob("C07.5b", "the presence test and the written path use the same hash of the block data")
-        if "blockdir::block_relpath" not in flow.origin_calls(po) or "blockhash::BlockHash::hash_bytes" not in flow.origin_calls(co):
-            ck.fail(o2, sd.name, "hash provenance changed", "path from %s; contains arg from %s" % (flow.origin_summary(po), flow.origin_summary(co)))
+        bps = common.block_path_sites(w, sd)
+        po2 = flow.origins_x(lib, sd, cr[0].args[1], through_all=common.FMT_THROUGH) if cr else set()
+        if not bps or "blockhash::BlockHash::hash_bytes" not in flow.origin_calls(po2) or "blockhash::BlockHash::hash_bytes" not in flow.origin_calls(co):
+            ck.fail(o2, sd.name, "hash provenance changed", "path from %s; contains arg from %s" % (flow.origin_summary(po2), flow.origin_summary(co)))
         else:
-            rp = [e for e in sd.events if e.bb in sd.live and e.name == "blockdir::block_relpath"]
-            ro = flow.origins_x(lib, sd, rp[0].args[0])
+            ro = set()
+            for e_, ho in bps:
+                ro |= ho
             if "blockhash::BlockHash::hash_bytes" in flow.origin_calls(ro):
                 ck.ok(o2)
             else:
